@@ -46,8 +46,10 @@ pub fn build_cli() -> Command<'static> {
         .version(crate_version!())
         .about(crate_description!())
         .global_setting(AppSettings::DeriveDisplayOrder)
+        // not inherited by subcommands unless set globally; all numeric arguments (amounts,
+        // angles, `set` values) belong to subcommands
+        .global_setting(AppSettings::AllowNegativeNumbers)
         .color(clap::ColorChoice::Auto)
-        .allow_negative_numbers(true)
         .dont_collapse_args_in_usage(true)
         .max_term_width(100)
         .subcommand_required(true)
